@@ -225,6 +225,7 @@ type progRun struct {
 func newProgRun(w *World, desugar bool, st *Stats) *progRun {
 	env := NewEnv()
 	env.UniqueIDs = true
+	env.Arena = true
 	return &progRun{w: w, env: env, r: NewSimRouter(env, w.Opts), m: NewModel(w.Opts), ps: &progState{fac: map[string]*facade{}}, desugar: desugar, st: st}
 }
 
@@ -615,6 +616,7 @@ func execC09Group(w *World, st *Stats) (*Violation, RunInfo) {
 	simrt.SetPoolCfg(w.Pool)
 	env := NewEnv()
 	env.UniqueIDs = true
+	env.Arena = true
 	info := RunInfo{Shape: worldShape(w), Events: int64(len(w.Ops))}
 	h := uint64(14695981039346656037)
 	g := mux.NewGroup[*Comp](env.Call, env.Group404(idG404), env.NotAllowedBuilder(id405), env.OptionsBuilder(idOptions))
